@@ -289,6 +289,7 @@ PROPS["C14"] = {
     "assumptions": COMMON_ASSUMPTIONS,
     "legs": [
         {"test": "TestC14Positions", "kind": "enum", "quick": {"shards": 1}, "thorough": {"shards": 1}},
+        {"test": "TestC14Matrix", "kind": "enum", "quick": {"shards": 1}, "thorough": {"shards": 1}},
         {"test": "TestC14Mutants", "kind": "rapid", "quick": {"checks": 12000, "shards": 3}, "thorough": {"checks": 150000, "shards": 8}},
         {"test": "TestC14WellTyped", "kind": "rapid", "quick": {"checks": 12000, "shards": 3}, "thorough": {"checks": 150000, "shards": 8}},
     ],
